@@ -2,11 +2,7 @@
 From CV Require Import Base.Tac Model.C04_Dens.
 From Coq Require Import Reals.
 From Coquelicot Require Import Coquelicot.
-From Interval Require Import Tactic.
 Local Open Scope R_scope.
-(* the case files import this module but not Coquelicot (whose tuple notation [x] clashes with list notation): make the
-   canonical structure that Interval's `integral` needs available through this module *)
-Canonical Structure Hierarchy.R_CompleteNormedModule.
 
 (* ---------- cumulative distribution functions stated as integrals of the documented 1-d densities
    (the code uses erf / scipy's incomplete gamma and beta functions, which the installed libraries do not have) ---------- *)
@@ -22,10 +18,3 @@ Definition gamma_int_cdf1 (k : nat) (r x : R) : R := RInt (gamma_int_pdf k r) 0 
 Definition beta_int_pdf (a b : nat) (t : R) : R := t ^ a * (1 - t) ^ b * INR (fact (a + b + 1)) / (INR (fact a) * INR (fact b)).
 Definition beta_int_cdf1 (a b : nat) (x : R) : R := RInt (beta_int_pdf a b) 0 x.
 
-(* enclosures of terms that contain integrals (cdfs) *)
-Ltac c04_int0 := cbv [rsum rprod bc zip2 zip3 zip4 map combine repeat length fold_right fst snd hd normal_args normal_cdf normal_cdf1 normal_cdf_z
-                     std_normal_pdf gamma_int_cdf1 gamma_int_pdf beta_int_cdf1 beta_int_pdf fact Nat.add Nat.mul INR pow];
-                integral with (i_prec 60, i_fuel 400, i_relwidth 36).
-
-(* conjunctions: exact side conditions over Q, one integral per conjunct, and a purely rational final inequality *)
-Ltac c04_int := repeat split; first [vm_compute; reflexivity | c04_int0 | (c04_red; interval with (i_prec 80))].
